@@ -28,7 +28,13 @@ def err_text(r):
     if not cl: return b''
     nbytes = int(cl.group(1)); nchars = int(cr.group(1)) if cr else nbytes
     extra = nbytes - nchars
-    if 0 <= extra <= nchars: return '\u00e9'.encode() * extra + b'x' * (nchars - extra)
+    if 0 <= extra <= 3 * nchars:
+        # any text with that many characters and bytes does (the text is opaque to the model): 4-, 3-, 2- and 1-byte characters
+        n4 = min(nchars, extra // 3); rem = extra - 3 * n4
+        n3 = min(nchars - n4, rem // 2); rem -= 2 * n3
+        n2 = min(nchars - n4 - n3, rem); rem -= n2
+        if rem == 0:
+            return '\U0001F600'.encode() * n4 + '\u20ac'.encode() * n3 + '\u00e9'.encode() * n2 + b'x' * (nchars - n4 - n3 - n2)
     return b'x' * nbytes
 
 class Tree:
@@ -140,7 +146,7 @@ def parse_result(line):
 def canon(line):
     """mask the two timestamp headers inside the hex payloads of a serve result line"""
     r = parse_result(line)
-    if not r['writes'] and not r['recv']:
+    if not r['writes'] and not r['recv'] and not r['head'].startswith('ret:'):
         return line
     head = r['head']
     if head.startswith('ret:'):
